@@ -623,6 +623,8 @@ func (st *AclState) applyAccountsAdd(ch *aclrecordproto.AclAccountsAdd, record *
 		if err != nil {
 			return err
 		}
+		// a re-added account keeps its permission history, like after a re-join by request or invite
+		prevChanges := st.accountStates[mapKeyFromPubKey(identity)].PermissionChanges
 		st.accountStates[mapKeyFromPubKey(identity)] = AccountState{
 			PubKey:          identity,
 			Permissions:     AclPermissions(acc.Permissions),
@@ -635,6 +637,11 @@ func (st *AclState) applyAccountsAdd(ch *aclrecordproto.AclAccountsAdd, record *
 					RecordId:   record.Id,
 				},
 			},
+		}
+		if len(prevChanges) > 0 {
+			readded := st.accountStates[mapKeyFromPubKey(identity)]
+			readded.PermissionChanges = append(append([]PermissionChange{}, prevChanges...), readded.PermissionChanges...)
+			st.accountStates[mapKeyFromPubKey(identity)] = readded
 		}
 
 		// If the current account is the one being added, then decrypt the read key using its private key
